@@ -308,6 +308,11 @@ func (so *stateObject) SetBalance(amount *big.Int) {
 	so.account.SetBalance(amount)
 }
 
+// setBalance sets the balance without journalling (used when the journal is unwound).
+func (so *stateObject) setBalance(amount *big.Int) {
+	so.account.SetBalance(amount)
+}
+
 // Balance returns the state object's current balance.
 func (so *stateObject) Balance() *big.Int {
 	return so.account.Balance()
